@@ -41,7 +41,7 @@ PROPS["C02"] = {
                     "SHA-512 behaves as a random function for the metamorphic (negative) assertions"],
     "pre": _c02_pre,
     "units": [{
-        "pkg": "primitives/ed25519", "configs": ALL4,
+        "pkg": "primitives/ed25519", "configs": ALL4T,
         "tests": {
             "TestC02Sign": T(3200, 48000, shards={"quick": 8, "thorough": 16}, env=_C02_ENV),
             "TestC02Invalid": T(12000, 200000, env=_C02_ENV),
